@@ -36,7 +36,8 @@ from .values import (
 CONTRACTS = {}
 LEMMAS = {}
 GHOST_IMPL = {}  # name -> Python implementation (spec function) used by RunCtx.ghost
-NONNEG_GHOSTS = {"OCCN", "AVN"}
+NONNEG_GHOSTS = {"OCCN", "AVN", "MARK"}
+GHOST_IMPL["MARK"] = lambda *a: 0  # trigger-only: MARK(x) >= 0 is always true; the term gives quantifiers over x a trigger
 
 
 def _force(x):
@@ -339,6 +340,8 @@ class SymCtx:
                 if ints:
                     xs = [fresh("gx") for _ in ints]
                     self.engine.global_axioms.append(z3.ForAll(xs, cache[key](*xs) >= 0, patterns=[cache[key](*xs)]))
+                    if len(ints) == 1 and name == "MARK":
+                        self.engine.seed_funs.append(cache[key])
                 else:
                     self.engine.global_axioms.append(cache[key].t >= 0)
         g = cache[key]
